@@ -12,9 +12,9 @@ class C30(M.MpiCheck):
             'one derived type was checked and one message or pack round trip used one. Distinct: event-order hash.')
     prof = dict(name='C30', np=(2, 4), nmsg=dict(quick=(4, 14), thorough=(4, 20)), ncomm=(0, 0), wild=0, probes=0.3,
                 types='derived', pack=1, cap=6000)
-    own = ('layout-', 'xfer', 'pack', 'unpack', 'packsize', 'count-type')
-    max_reported = 6
-    budgets = {'quick': dict(runs=1500, wall=40), 'thorough': dict(runs=24000, wall=780)}
+    own = ('layout-', 'xfer', 'pack', 'unpack', 'packsize')
+    max_reported = 5
+    budgets = {'quick': dict(runs=1500, wall=22), 'thorough': dict(runs=24000, wall=780)}
 
     def nontrivial(self, plan, res):
         return res['stats'].get('types_checked', 0) >= 1 and res['stats'].get('recvs_checked', 0) >= 1
